@@ -357,6 +357,12 @@ def run(F, chk):
     chk.extra["member_writes_in_sort_prune_tree"] = writes
     chk.floor(R5, 10)
 
+    # ------------------------------------------------------------------ R4.6
+    n_ = chk.share(F, "c05", ["R5.1", "R5.2", "R5.5"], "R4.6",
+                   "SetBlockOrder and the pruner renumber exactly the references the enumerators report: a reference that is "
+                   "serialised but not (or doubly, or only conditionally) enumerated designates another block after a sort")
+    chk.floor("R4.6", 600)
+
     chk.assumptions += ["C05: every reference is enumerated, so remapping the enumerated references remaps all of them",
                         "that SortGraph's rebuilt child array is a permutation of the old one, that the root ends up first and "
                         "that sorting is idempotent are value-level and not decided"]
